@@ -12,15 +12,24 @@ def run(res, work, tier, seed):
     vlib.mc_expect_ok(work, "M3TagCache.tla", c, "M3TagCache: all sequences of allocations over tag maps on the alphabet {a, =} (<= 2 entries, strings <= 2)", res, timeout=3000)
     c = vlib.write_cfg(work, "tc_w.cfg", "M3TagCache.cfg", {"DevTagCacheHashOnly": "TRUE"})
     vlib.mc_expect_violation(work, "M3TagCache.tla", c, "TagsIntact", "DevTagCacheHashOnly", res, timeout=600)
-    # real code: scheduler-driven executions, then free-running histories
-    m3common.sched_runs(res, work, tier, seed, m3common.C13)
+    # real code: scheduler-driven executions and, at the same time, free-running histories
+    from concurrent.futures import ThreadPoolExecutor
     out = os.path.join(work, "c13free")
     os.makedirs(out)
     vlib.stage_specs(out)
-    vlib.run_vh(["c13", "-out", out, "-seed", seed, "-tier", tier], timeout=3000)
-    meta = vlib.read_meta(out)
+    vlib.build_harness()
+
+    def free():
+        vlib.run_vh(["c13", "-out", out, "-seed", seed, "-tier", tier], timeout=3000)
+        meta = vlib.read_meta(out)
+        fails, r = vlib.tlc_trace(out, "MCM3ObsTrace.tla", "M3ObsTrace.cfg", os.path.join(out, "trace.ndjson"), meta["events"], timeout=3000)
+        return meta, fails, r
+
+    with ThreadPoolExecutor(max_workers=1) as ex:
+        fut = ex.submit(free)
+        m3common.sched_runs(res, work, tier, seed, m3common.C13)
+        meta, fails, r = fut.result()
     trace = os.path.join(out, "trace.ndjson")
-    fails, r = vlib.tlc_trace(out, "MCM3ObsTrace.tla", "M3ObsTrace.cfg", trace, meta["events"], timeout=3000)
     if r["violated"] or not r["consumed"]:
         raise vlib.Infra("M3ObsTrace did not consume the free-running trace: %s\n%s" % (r["violated"], r["out"][-3000:]))
     res.add_trace_run("M3ObsTrace free-running histories", r, meta["cases"], meta["events"])
